@@ -91,6 +91,12 @@ func c14CheckHistory(c *fw.Ctx, ops []extOp, fresh bool, useReset bool) {
 	}
 	for oi, op := range ops {
 		c.Trace(func() (string, any) { return fmt.Sprintf("history-op-%d", oi), mk(nil, 0, "extend") })
+		// names that are not registered yet are not found (and asking must not hide them later)
+		for _, nm := range append([]string{op.MIME}, op.Aliases...) {
+			if model.Lookup(nm) < 0 && mimetype.Lookup(nm) != nil {
+				c.Violate("lookup", "lookup-before-registration", fmt.Sprintf("Lookup(%q) found a format before any format of that name was registered", nm), mk([]byte(nm), 0, "lookup-before"))
+			}
+		}
 		id := applyOp(op, model, base)
 		extIDs = append(extIDs, id)
 		// keep a value returned now; it must not change when the history goes on
@@ -164,30 +170,34 @@ func c14CheckHistory(c *fw.Ctx, ops []extOp, fresh bool, useReset bool) {
 			}
 		}
 	}
-	// (c) Lookup
-	for oi, op := range ops {
+	// (c) Lookup: the model's depth-first name search says which format must be found
+	for _, op := range ops {
 		names := append([]string{op.MIME}, op.Aliases...)
 		for _, nm := range names {
 			lk := mimetype.Lookup(nm)
 			c.Eval(1)
 			c.Count("lookups_checked", 1)
-			pid := model.Nodes[extIDs[oi]].Parent
-			wantParent := model.ChainOfID(pid).String()
+			mid := model.Lookup(nm)
+			if mid < 0 {
+				panic("verif harness: model lost the name " + nm)
+			}
+			mn := model.Nodes[mid]
+			wantParent := model.ChainOfID(mn.Parent).String()
 			problem := ""
 			switch {
 			case lk == nil:
 				problem = "Lookup returned nil"
-			case lk.String() != op.MIME || lk.Extension() != op.Ext:
-				problem = fmt.Sprintf("Lookup returned %s|%s", lk.String(), lk.Extension())
+			case lk.String() != mn.MIME || lk.Extension() != mn.Ext:
+				problem = fmt.Sprintf("Lookup returned %s|%s, want %s|%s", lk.String(), lk.Extension(), mn.MIME, mn.Ext)
 			case lk.Parent() == nil || lib.ChainOf(lk.Parent()).String() != wantParent:
 				problem = fmt.Sprintf("parent chain %s, want %s", lib.ChainOf(lk.Parent()), wantParent)
 			default:
-				for _, a := range op.Aliases {
+				for _, a := range mn.Aliases {
 					if !lk.Is(a) {
 						problem = "Is(" + a + ") is false"
 					}
 				}
-				if op.MIME == strings.ToLower(op.MIME) && !lk.Is(op.MIME) {
+				if mn.MIME == strings.ToLower(mn.MIME) && !lk.Is(mn.MIME) {
 					problem = "Is(own name) is false"
 				}
 			}
@@ -285,7 +295,7 @@ func init() {
 	fw.Register(&fw.Prop{
 		ID:    "C14",
 		Level: "exploration",
-		Rule: "random histories of 1-12 Extend calls (package level; on built-ins at every depth looked up by name or alias; on earlier extensions, forming chains and siblings) with predicates from a family (always true/false, prefix, contains, length-/limit-dependent, a copy of a built-in sibling's detector, accepts-empty), names partly with upper-case letters, 0-2 aliases; after each history ~80 inputs (seeds + inputs built to satisfy one or several extension predicates + the empty input) x 3 limits are compared with the independent walk model, with the pre-history baseline when every extension rejects, Lookup is checked for every name and alias, and values returned mid-history are re-read at the end. Thousands of histories per child use the reset hook; a sample runs one history per fresh process without it; rounds of 8 goroutines registering concurrently are checked for lost registrations. " +
+		Rule: "random histories of 1-12 Extend calls (package level; on built-ins at every depth looked up by name or alias; on earlier extensions, forming chains and siblings) with predicates from a family (always true/false, prefix, contains, length-/limit-dependent, a copy of a built-in sibling's detector, accepts-empty), names partly with upper-case letters and sometimes re-used for a second format, 0-2 aliases, each name looked up before and after its registration; after each history ~80 inputs (seeds + inputs built to satisfy one or several extension predicates + the empty input) x 3 limits are compared with the independent walk model, with the pre-history baseline when every extension rejects, Lookup is checked for every name and alias, and values returned mid-history are re-read at the end. Thousands of histories per child use the reset hook; a sample runs one history per fresh process without it; rounds of 8 goroutines registering concurrently are checked for lost registrations. " +
 			"non-trivial = a detection classified under an extension (measured with the model); distinct = distinct (history shape: attach-point class + predicate kind per step, depth of the reported path).",
 		Assumptions: []string{
 			"the model inserts each extension in front of the siblings present at registration time (the statement's rule)",
